@@ -647,7 +647,7 @@ func (e *Env) evalCall(x *SExpr) Value {
 	}
 	app := UF("spec."+name, sf.Sort, flat...)
 	key := app.String()
-	if e.rdepth < 3 && !e.live.Defs[key] {
+	if e.rdepth < 5 && !e.live.Defs[key] {
 		e.live.Defs[key] = true
 		n := e.with(vars)
 		n.rdepth = e.rdepth + 1
